@@ -382,6 +382,53 @@ fn vmap_session(sc: &Value, tr: &mut Tracer) {
 	drop(listener);
 }
 
+/// a rigid motion under way: listener and emitter glide by the same translation with the same tween - started at once
+/// or at a tick of a clock - and every frame rendered meanwhile is compared with the level before the motion
+///   {"kind":"glide","sk":"imm"|"clk","w":tick,"d":buffers,"t":[x,y,z],"e":[x,y,z],"st":strength*1000}
+fn glide_session(sc: &Value, tr: &mut Tracer) {
+	let sk = sc["sk"].as_str().unwrap_or("imm");
+	let (w, d) = (sc["w"].as_u64().unwrap_or(1), sc["d"].as_u64().unwrap_or(2));
+	let tv = fvec(&sc["t"]);
+	let ev = fvec(&sc["e"]);
+	let st = sc["st"].as_i64().unwrap_or(750);
+	tr.reset(json!({"kind": "glide", "cls": "glide", "sk": sk, "w": w, "d": d, "tol": 60}));
+	let input = Frame::from_mono(0.5);
+	let mut sim = Sim::basic();
+	let mut listener = sim.manager.add_listener(Vec3::ZERO, Quat::IDENTITY).unwrap();
+	let e0 = Vec3::new(ev[0], ev[1], ev[2]);
+	let builder = SpatialTrackBuilder::new().distances((1.0, 12.0)).spatialization_strength(st as f32 / 1000.0);
+	let mut track = sim.manager.add_spatial_sub_track(listener.id(), e0, builder).unwrap();
+	let stats: Arc<ProbeStats> = Default::default();
+	track.play(ProbeData { frame: input, stats }).unwrap();
+	// the clock ticks once per buffer
+	let mut clock = sim.manager.add_clock(kira::clock::ClockSpeed::TicksPerSecond(RATE as f64 / NF as f64)).unwrap();
+	sim.callback(NF);
+	let base = sim.callback(NF).out;
+	let (bl, br) = (gain6(base[0], input.left), gain6(base[1], input.right));
+	let start = if sk == "clk" {
+		kira::StartTime::ClockTime(kira::clock::ClockTime { clock: clock.id(), ticks: w, fraction: 0.0 })
+	} else {
+		kira::StartTime::Immediate
+	};
+	let tw = Tween { start_time: start, duration: chunks(d), easing: Easing::Linear };
+	let t3 = Vec3::new(tv[0], tv[1], tv[2]);
+	listener.set_position(t3, tw);
+	track.set_position(e0 + t3, tw);
+	clock.start();
+	for k in 0..(w + d + 3) {
+		let r = sim.callback(NF);
+		let p = r.panicked.is_some();
+		let mut dl = 0i64;
+		let mut dr = 0i64;
+		for c in r.out.chunks(2) {
+			dl = dl.max((gain6(c[0], input.left) - bl).abs());
+			dr = dr.max((gain6(c[1], input.right) - br).abs());
+		}
+		tr.ev(json!({"a": "gl", "k": k, "dl": dl, "dr": dr, "p": p, "bl": bl}));
+	}
+	tr.ev(json!({"a": "end"}));
+}
+
 fn geo_session(sc: &Value, tr: &mut Tracer) {
 	let q = sc["q"].as_i64().unwrap_or(1);
 	let (min, max) = (sc["min"].as_f64().unwrap_or(1.0) as f32, sc["max"].as_f64().unwrap_or(4.0) as f32);
@@ -460,6 +507,7 @@ fn main() {
 			"life" => life_session(&sc, &mut tr),
 			"geo" => geo_session(&sc, &mut tr),
 			"vmap" => vmap_session(&sc, &mut tr),
+			"glide" => glide_session(&sc, &mut tr),
 			other => panic!("unknown scenario kind {other}"),
 		}
 	}
